@@ -2489,3 +2489,144 @@ Section C17Inter.
       right. intro X. subst vs. discriminate E2.
   Qed.
 End C17Inter.
+
+(* ========================================================================== *)
+(** * C17: IntermediatePolynomial with a precision *)
+
+Lemma trim_num_prefix x s : x <> c_zero -> x <> c_dot -> trim_num (x :: s) = x :: trim_num s.
+Proof.
+  intros Hz Hd. unfold trim_num.
+  assert (E : contains_char c_dot (x :: s) = contains_char c_dot s).
+  { unfold contains_char. cbn [existsb]. destruct (N.eqb_spec c_dot x) as [X|_]; [congruence|reflexivity]. }
+  rewrite E. destruct (contains_char c_dot s); [|reflexivity].
+  rewrite (trim_end_keep c_zero [] x s Hz). cbn [app].
+  rewrite (trim_end_keep c_dot [] x (trim_end c_zero s) Hd). reflexivity.
+Qed.
+
+Lemma Forall2_map_r {A B} (P : A -> B -> Prop) (f : A -> B) (l : list A) :
+  (forall x, In x l -> P x (f x)) -> Forall2 P l (map f l).
+Proof.
+  induction l as [|x l IH]; intro H; [constructor|].
+  cbn [map]. constructor; [apply H; left; reflexivity|apply IH; intros y Hy; apply H; right; exact Hy].
+Qed.
+
+Definition close_vars (eps : R) (vs vs' : list (name * R)) : Prop :=
+  Forall2 (fun ve ve' => fst ve' = fst ve /\ Rabs (snd ve' - snd ve) <= eps) vs vs'.
+Definition close_term (eps : R) (t t' : term R) : Prop :=
+  Rabs (t_coef t' - t_coef t) <= eps /\ close_vars eps (t_vars t) (t_vars t').
+
+Section C17InterPrec.
+  Variable U : UClass.
+  Hypothesis U_num : forall c, (c < 128)%N -> u_numeric U c = is_ascii_digit c.
+  Variable F : R -> Prop.
+  Hypothesis F_opp : forall x, F x -> F (- x).
+  Variable fmt_prec : nat -> R -> str.
+  Variable fmt_short : R -> str.
+  Hypothesis Hspec : prec_spec F fmt_prec.
+  Variable prec : nat.
+
+  Let eps := / 2 * / 10 ^ prec.
+  Let rdp := rd_prec fmt_prec prec.
+  Let rdep (e : R) : R :=
+    match @parse_dec R RNum (tl (trim_num (c_caret :: fmt_prec prec e))) with Some y => y | None => 0 end.
+
+  Lemma eps_nonneg : 0 <= eps.
+  Proof.
+    unfold eps. pose proof (pow10_pos prec).
+    apply Rmult_le_pos; [lra|left; apply Rinv_0_lt_compat; assumption].
+  Qed.
+
+  Lemma prec_mag_ok a : F a -> 0 <= a ->
+    mag_ok fmt_prec fmt_short (Some prec) rdp a /\ Rabs (rdp a - a) <= eps.
+  Proof.
+    intros Fa Ha. destruct Hspec as [_ Hpos].
+    destruct (Hpos prec a Fa Ha) as [n [N0 [N1 N2]]].
+    destruct (trim_num_dec_point prec n N0) as [T1 [T2 _]].
+    destruct (fmt_prec_number_level prec n a N0 N1) as [y [Y1 [_ Y3]]].
+    unfold mag_ok, rdp, rd_prec. cbn [fmt_num]. rewrite N2, Y1. repeat split; [exact T1|exact Y3].
+  Qed.
+
+  Lemma prec_exp_ok e : F e ->
+    exp_ok fmt_prec fmt_short (Some prec) rdep e /\ Rabs (rdep e - e) <= eps.
+  Proof.
+    intro Fe. destruct Hspec as [Hneg Hpos].
+    assert (Hc0 : c_caret <> c_zero) by discriminate. assert (Hcd : c_caret <> c_dot) by discriminate.
+    assert (Hm0 : c_minus <> c_zero) by discriminate. assert (Hmd : c_minus <> c_dot) by discriminate.
+    destruct (Rlt_le_dec e 0) as [Lt|Ge].
+    - (* negative exponent: "^-digits" *)
+      pose proof (F_opp e Fe) as Fo.
+      destruct (Hpos prec (- e) Fo ltac:(lra)) as [n [N0 [N1 N2]]].
+      destruct (trim_num_dec_point prec n N0) as [T1 [T2 _]].
+      destruct (fmt_prec_number_level prec n (- e) N0 N1) as [y [Y1 [_ Y3]]].
+      assert (Etxt : trim_num (c_caret :: fmt_prec prec e) = c_caret :: [c_minus] ++ trim_num (dec_point prec n)).
+      { rewrite (Hneg prec e Fe Lt), N2, (trim_num_prefix _ _ Hc0 Hcd), (trim_num_prefix _ _ Hm0 Hmd). reflexivity. }
+      assert (Pd : @parse_dec R RNum ([c_minus] ++ trim_num (dec_point prec n)) = Some (- y)).
+      { cbn [app]. apply parse_dec_neg; assumption. }
+      assert (Er : rdep e = - y).
+      { unfold rdep. rewrite Etxt. cbn [tl]. rewrite Pd. reflexivity. }
+      split.
+      + exists [c_minus], (trim_num (dec_point prec n)). cbn [fmt_exp]. rewrite Er.
+        repeat split; [exact Etxt|right; reflexivity|exact T1|exact Pd].
+      + rewrite Er. replace (- y - e) with (- (y - - e)) by ring. rewrite Rabs_Ropp. exact Y3.
+    - destruct (Hpos prec e Fe Ge) as [n [N0 [N1 N2]]].
+      destruct (trim_num_dec_point prec n N0) as [T1 [T2 _]].
+      destruct (fmt_prec_number_level prec n e N0 N1) as [y [Y1 [_ Y3]]].
+      assert (Etxt : trim_num (c_caret :: fmt_prec prec e) = c_caret :: [] ++ trim_num (dec_point prec n)).
+      { rewrite N2, (trim_num_prefix _ _ Hc0 Hcd). reflexivity. }
+      assert (Er : rdep e = y).
+      { unfold rdep. rewrite Etxt. cbn [tl app]. rewrite Y1. reflexivity. }
+      split.
+      + exists [], (trim_num (dec_point prec n)). cbn [fmt_exp]. rewrite Er.
+        repeat split; [exact Etxt|left; reflexivity|exact T1|exact Y1].
+      + rewrite Er. exact Y3.
+  Qed.
+
+  Lemma prec_term_ok t : wf_term F t -> term_ok fmt_prec fmt_short (Some prec) rdp rdep t.
+  Proof.
+    intros [Fc [Hv Hs]]. split; [|split; [|exact Hs]].
+    - apply prec_mag_ok; [apply F_abs; assumption|apply Rabs_pos].
+    - intros v e Hin. destruct (Hv v e Hin) as [Hl Fe]. split; [exact Hl|]. intros _. apply prec_exp_ok. exact Fe.
+  Qed.
+
+  Lemma prec_term_close t : wf_term F t -> close_term eps t (readterm rdp rdep t).
+  Proof.
+    intros [Fc [Hv Hs]]. split.
+    - cbn [readterm t_coef]. unfold readcI.
+      pose proof (proj2 (prec_mag_ok (Rabs (t_coef t)) (F_abs F F_opp _ Fc) (Rabs_pos _))) as B.
+      destruct (nneb (nabs (t_coef t)) n1 || negb (has_vars t)).
+      + destruct (Rltb (t_coef t) 0) eqn:En.
+        * apply Rltb_true in En. rewrite (Rabs_left _ En) in *.
+          replace (- rdp (- t_coef t) - t_coef t) with (- (rdp (- t_coef t) - - t_coef t)) by ring.
+          rewrite Rabs_Ropp. exact B.
+        * apply Rltb_false in En. rewrite (Rabs_right (t_coef t)) in * by lra. exact B.
+      + replace (t_coef t - t_coef t) with 0 by ring. rewrite Rabs_R0. apply eps_nonneg.
+    - cbn [readterm t_vars]. unfold close_vars, read_vars. apply Forall2_map_r.
+      intros [v e] Hin. cbn [fst snd]. split; [reflexivity|].
+      unfold rdx. destruct (Reqb e 1) eqn:E1.
+      + apply Reqb_true in E1. subst e. replace (1 - 1) with 0 by ring. rewrite Rabs_R0. apply eps_nonneg.
+      + apply prec_exp_ok. exact (proj2 (Hv v e Hin)).
+  Qed.
+
+  Lemma var_set_readterm (ts : list (term R)) : var_set (map (readterm rdp rdep) ts) = var_set ts.
+  Proof.
+    unfold var_set. do 2 f_equal.
+    induction ts as [|t ts IH]; [reflexivity|].
+    cbn [map flat_map]. rewrite IH. f_equal.
+    cbn [readterm t_vars]. unfold read_vars. rewrite map_map. reflexivity.
+  Qed.
+
+  Lemma c17_precision_inter : forall p : ipoly R,
+    i_terms p <> [] ->
+    (forall t, In t (i_terms p) -> wf_term F t) ->
+    exists ts', parse_inter U (fmt_inter fmt_prec fmt_short (Some prec) p)
+                = Ok {| i_terms := ts'; i_vars := var_set (i_terms p) |}
+             /\ Forall2 (close_term (/ 2 * / 10 ^ prec)) (i_terms p) ts'.
+  Proof.
+    intros p Hne Hwf. unfold fmt_inter. destruct (i_terms p) as [|t ts] eqn:Et; [contradiction|].
+    exists (map (readterm rdp rdep) (t :: ts)). split.
+    - rewrite (parse_inter_loop U U_num fmt_prec fmt_short (Some prec) rdp rdep (t :: ts)).
+      + rewrite var_set_readterm. reflexivity.
+      + intros x Hx. apply prec_term_ok, Hwf, Hx.
+    - apply Forall2_map_r. intros x Hx. apply prec_term_close, Hwf, Hx.
+  Qed.
+End C17InterPrec.
